@@ -101,10 +101,10 @@ fn ops_for(block: &[u8], n: usize, all: bool) -> Vec<String> {
 pub fn generate(g: &mut Gen) {
     // 1. corpus blocks
     for (_name, b) in fx::hex_files("block") {
-        if b.len() > 400_000 && !g.thorough() { continue; }
         let n = fx::split_block(&b).map(|rb| rb.bodies.len().max(rb.byron_payloads.len())).unwrap_or(0);
         g.case(ops_for(&b, n, g.thorough()));
     }
+    if let Some(e) = fx::small_ebb() { g.case(ops_for(&e, 0, true)); }
     for b in fx::chunk_blocks(if g.thorough() { 5 } else { 300 }) {
         let n = fx::split_block(&b).map(|rb| rb.bodies.len().max(rb.byron_payloads.len())).unwrap_or(0);
         g.case(ops_for(&b, n, g.thorough()));
